@@ -141,7 +141,7 @@ def run(ctx):
         # sub-fields read back
         if kind in rbranches:
             rpaths = []
-            for st in rbranches[kind][1]:
+            for st in chains.inline_aliases(rbranches[kind][1], 'operation_proto'):   # a named sub-message (pulse = operation_proto.couplerpulsegate) reads the same fields
                 rpaths += chains.attr_paths(st, 'operation_proto')
             rsubs = _subpaths(rpaths, kind)
             for sp in sorted(subs):
